@@ -122,6 +122,32 @@ theorem C06_history_immediate_life_request (cfg : Cfg) (beh : Beh) (w : World) (
     · exact C06_processRequest_life_request _ _ e he key vis o hk hl
   · simp only [List.mem_singleton] at he; rw [hk] at he; cases he
 
+/-- **… and `immediateChangeWith(d, p)`** -/
+theorem C06_history_immediate_with_life_request (cfg : Cfg) (beh : Beh) (w : World) (k i d p : Nat) (c c' : Core)
+    (hg : w.get i = some c) (hcond : (c.active != 255 && idOk cfg d && cfg.hasPayload) = true)
+    (hget : (stepAll cfg beh w k (.immediateChangeWith i d p)).1.get i = some c') :
+    ∀ e ∈ (stepAll cfg beh w k (.immediateChangeWith i d p)).2, ∀ key vis o, e = Ev.cb key vis o → key.method.isLife = true →
+      o.request = c'.request.canon := by
+  intro e he key vis o hk hl
+  simp only [stepAll, step, Op.inst, Op.name, hg] at he hget
+  rw [if_pos hcond] at he hget
+  rw [onCore_fst, World.get_put_same] at hget
+  cases hget
+  rw [onCore_snd] at he
+  have e1 : (extChange ⟨cfg, beh, i, k⟩ d (some p) ⋙ processRequest ⟨cfg, beh, i, k⟩) { core := c } =
+      ((processRequest ⟨cfg, beh, i, k⟩ { core := { c with request := ⟨255, d, some p⟩ } }).1,
+       (extChange ⟨cfg, beh, i, k⟩ d (some p) { core := c }).2 ++
+       (processRequest ⟨cfg, beh, i, k⟩ { core := { c with request := ⟨255, d, some p⟩ } }).2) := rfl
+  rw [e1] at he ⊢
+  rcases List.mem_append.mp he with he | he
+  · rcases List.mem_append.mp he with he | he
+    · simp only [extChange, logEv] at he
+      split at he
+      · simp only [List.mem_singleton] at he; rw [hk] at he; cases he
+      · cases he
+    · exact C06_processRequest_life_request _ _ e he key vis o hk hl
+  · simp only [List.mem_singleton] at he; rw [hk] at he; cases he
+
 /-! ### `load()` -/
 
 theorem canon_clear (t : Tr) : t.clear.canon = {} := by
